@@ -199,11 +199,47 @@ def rg (ts : List String) : String :=
     else "bad-op"
   | _, _, _, _, _ => "bad-op"
 
+/-- `negotiate_connection` on both sides: handshake (message 3 possibly flipped at stream offset `flip`, i.e. body
+offset `flip - 62` of the framed message), dialed-peer test, `/yamux` negotiation (`negotiateConn`). -/
+def nc (ts : List String) : String :=
+  match idx? ts "d", idx? ts "l", arg? "dialed" ts with
+  | some d, some l, some dl =>
+    let dialed : Option (Option Nat) := if dl = "none" then some none else (idx? ts "dialed").map some
+    let flip : Option (Option Nat) := match arg? "flip" ts with
+      | none => some none
+      | some s => match s.toNat? with
+        | some o => if 64 ≤ o ∧ o < 232 then some (some o) else none
+        | none => none
+    match dialed, flip with
+    | some dialed, some flip =>
+      let a3 : Act := match flip with
+        | none => .pass
+        | some o => .flip (o - 62) 1
+      let r := resolve false (run1 E ⟨d, 1, 2⟩ ⟨l, 3, 4⟩ (scripted false .pass .pass a3))
+      let dialedId : Option PeerId := dialed.bind fun i =>
+        match peerIdOfEncoding E.c (keyEncoding (freePub i)) with
+        | .ok p => some p
+        | .error _ => none
+      let conn := negotiateConn dialedId r
+      let dres := match r.1 with
+        | .ok P _ => if conn.1 then "ok:" ++ peerName P
+          else (match negotiateCheck dialedId P with
+            | .error _ => "err:peer-id-mismatch"
+            | .ok _ => "err:mss")
+        | other => showRes [] other
+      let lres := match r.2 with
+        | .ok Q _ => if conn.2 then "ok:" ++ peerName Q else "err:mss"
+        | other => showRes [] other
+      "D=" ++ dres ++ " L=" ++ lres
+    | _, _ => "bad-op"
+  | _, _, _ => "bad-op"
+
 def step (st : State) (line : String) : State × String :=
   match tokens line with
   | "pv" :: rest => (st, pv rest)
   | "hs" :: rest => (st, hs rest)
   | "rg" :: rest => (st, rg rest)
+  | "nc" :: rest => (st, nc rest)
   | _ => (st, "bad-op")
 
 end Litep2pVerif.Driver.C01
